@@ -82,3 +82,25 @@ Example C02_inhabited :
                    (VList [VInt 1; VStr "ab"; VInt 7])
   = Ok (VTuple [VList [VBool true; VBool true; VBool false]; VList [VInt 1; VStr "ab"]; VList [VInt 0; VInt 1]; VList [VInt 2]]).
 Proof. vm_compute. split; reflexivity. Qed.
+
+(* ---- with source data: for EVERY argument type and EVERY resolver of arguments (in particular data-path arguments resolved against a
+   source document, Rule.v: resolve1 (Some doc); NestedArgs.v: resolve_n), a combination gives, item by item, the Boolean combination of
+   what its operands give WITH THE SAME RESOLVER: every operand sees the same source data, wherever it sits in the tree ---- *)
+Theorem C02_pointwise_any_resolver : forall (A : Type) (resolver : A -> res pyval) o (a b : cond A) d fa fb,
+  filter_tree T resolver a d = Ok fa -> filter_tree T resolver b d = Ok fb ->
+  exists f, filter_tree T resolver (CBin o a b) d = Ok f /\
+            fr_result f = zip_with (bop_apply o) (fr_result fa) (fr_result fb) /\
+            fr_cfalse f = map negb (fr_result f).
+Proof.
+  intros A resolver o a b d fa fb Ha Hb. cbn [filter_tree]. rewrite Ha, Hb. cbn [bind].
+  eexists; split; [reflexivity|]. split; reflexivity.
+Qed.
+
+(* an operand that cannot be filtered makes the combination fail with the same error, left operand first *)
+Theorem C02_errors_any_resolver : forall (A : Type) (resolver : A -> res pyval) o (a b : cond A) d e,
+  (filter_tree T resolver a d = Err e \/ (exists fa, filter_tree T resolver a d = Ok fa /\ filter_tree T resolver b d = Err e)) ->
+  filter_tree T resolver (CBin o a b) d = Err e.
+Proof.
+  intros A resolver o a b d e [Ha | [fa [Ha Hb]]]; cbn [filter_tree]; rewrite Ha; cbn [bind]; [reflexivity|]. rewrite Hb. reflexivity.
+Qed.
+Print Assumptions C02_pointwise_any_resolver. Print Assumptions C02_errors_any_resolver.
